@@ -180,8 +180,30 @@ func (r *Rand) Spec(maxAttrs, maxVal int) MsgSpec {
 	}
 	n := r.Intn(maxAttrs + 1)
 	for i := 0; i < n; i++ {
-		s.Attrs = append(s.Attrs, ref.Attr{Type: r.AttrType(), Value: r.Bytes(r.ValueLen(maxVal))})
+		a := ref.Attr{Type: r.AttrType(), Value: r.Bytes(r.ValueLen(maxVal))}
+		if r.Chance(1, 40) {
+			a = ref.Attr{Type: 0x0000, Value: nil} // four zero bytes are an attribute too (type 0, length 0)
+		}
+		s.Attrs = append(s.Attrs, a)
 	}
+
+	return s
+}
+
+// NearMaxSpec draws a message whose body is within 20 bytes of the largest
+// one the 16-bit length field can describe (65532), i.e. 65536..65552 bytes
+// on the wire: a few small attributes and one that fills the rest.
+func (r *Rand) NearMaxSpec() MsgSpec {
+	s := r.Spec(3, 40)
+	used := 0
+	for _, a := range s.Attrs {
+		used += 4 + (len(a.Value)+3)/4*4
+	}
+	body := 65532 - 4*r.Intn(6)
+	rest := body - used - 4
+	big := ref.Attr{Type: r.AttrType(), Value: r.Bytes(rest - r.Intn(4))}
+	at := r.Intn(len(s.Attrs) + 1)
+	s.Attrs = append(s.Attrs[:at], append([]ref.Attr{big}, s.Attrs[at:]...)...)
 
 	return s
 }
@@ -318,7 +340,16 @@ func (r *Rand) Hostile(seeds [][]byte, maxLen int) []byte {
 		return r.Mutate(r.WireDirty(r.Spec(6, 48)))
 	case 8: // large valid
 		s := r.Spec(4, 3000)
-		if r.Chance(1, 6) {
+		if r.Chance(1, 8) {
+			// body at the very top of the 16-bit length field: 65516..65532
+			s.Attrs = []ref.Attr{{Type: r.AttrType(), Value: r.Bytes(65532 - 4 - 4*r.Intn(5) - r.Intn(4))}}
+		} else if r.Chance(1, 8) {
+			// very many tiny attributes (more than a thousand)
+			s.Attrs = s.Attrs[:0]
+			for k := 1000 + r.Intn(2000); k > 0; k-- {
+				s.Attrs = append(s.Attrs, ref.Attr{Type: r.AttrType(), Value: r.Bytes(r.Intn(3))})
+			}
+		} else if r.Chance(1, 6) {
 			// single huge attribute filling the 16-bit length
 			s.Attrs = []ref.Attr{{Type: r.AttrType(), Value: r.Bytes(r.Range(60000, 65531))}}
 		}
